@@ -84,11 +84,42 @@ theorem frame_parseFile (i : Nat) (d : Disk) (w : World) (f : File) :
     Frame i w (parseFile d w (.temp i) f).1 :=
   (frame_bindParser i w).trans (frame_parseAndRun i d _ f)
 
+theorem frame_includeFile (i : Nat) (d : Disk) (w : World) (f : File) :
+    Frame i w (includeFile d w (.temp i) f).1 := by
+  unfold includeFile
+  split
+  · exact Frame.refl i w
+  · split
+    · exact Frame.refl i w
+    · exact frame_loadAndRun i d w f
+
+theorem frame_runCallback (i : Nat) (d : Disk) (w : World) (cb : Nat) (n : Name) :
+    Frame i w (runCallback d w (.temp i) cb n).1 := by
+  unfold runCallback
+  split
+  · exact frame_includeFile i d w _
+  · exact Frame.refl i w
+
+theorem frame_callAutoLoad (i : Nat) (d : Disk) (n : Name) (cbs : List Nat) :
+    ∀ w, Frame i w (callAutoLoad d (.temp i) n w cbs).1 := by
+  induction cbs with
+  | nil => intro w; exact Frame.refl i w
+  | cons cb cbs ih =>
+    intro w
+    unfold callAutoLoad
+    have h1 := frame_runCallback i d w cb n
+    dsimp only
+    split
+    · exact h1
+    · split
+      · exact h1
+      · exact h1.trans (ih _)
+
 theorem frame_loadClass (i : Nat) (d : Disk) (w : World) (n : Name) :
     Frame i w (loadClass d w (.temp i) n).1 := by
   unfold loadClass
   split
-  · exact Frame.refl i w
+  · exact frame_callAutoLoad i d n _ w
   · split
     · exact Frame.refl i w
     · have h := frame_loadAndRun i d w ‹File›
@@ -108,10 +139,17 @@ theorem frame_tempGetOrLoadClass (i : Nat) (d : Disk) (w : World) (n : Name) :
         dsimp only
         split <;> exact h
 
-/-- the base's autoloader does nothing when the class path has no file for the name -/
-theorem loadClass_find_none (d : Disk) (w : World) (v : VMId) (n : Name) (h : d.find n = none) :
-    loadClass d w v n = (w, false) := by
-  unfold loadClass; rw [h]
+/-- the autoloader does nothing when the class path has no file for the name and no
+autoload callback is registered -/
+theorem loadClass_noop (d : Disk) (w : World) (v : VMId) (n : Name) (h : d.find n = none)
+    (ha : w.base.autoload = []) : loadClass d w v n = (w, false) := by
+  unfold loadClass; rw [h, ha]; rfl
+
+theorem canAutoload_false {d : Disk} {w : World} {n : Name} (h : canAutoload d w n = false) :
+    d.find n = none ∧ w.base.autoload = [] := by
+  simp only [canAutoload, Bool.or_eq_false_iff, Option.isSome_eq_false_iff, Option.isNone_iff_eq_none,
+    Bool.not_eq_false', List.isEmpty_iff] at h
+  exact h
 
 theorem frame_tempGetOrLoadInterface (i : Nat) (d : Disk) (w : World) (n : Name)
     (hl : leaky d w (.getOrLoadInterface (.temp i) n) = false) :
@@ -124,10 +162,11 @@ theorem frame_tempGetOrLoadInterface (i : Nat) (d : Disk) (w : World) (n : Name)
     split
     · exact Frame.refl i w
     · rename_i hbase
-      have hf : d.find n = none := by
+      have hf : canAutoload d w n = false := by
         simp [leaky, hloc, hbase] at hl
         exact hl
-      rw [loadClass_find_none d w .base n hf]
+      obtain ⟨h1, h2⟩ := canAutoload_false hf
+      rw [loadClass_noop d w .base n h1 h2]
       exact Frame.refl i w
 
 theorem frame_tempLoadPkg (i : Nat) (d : Disk) (w : World) (n : Name)
@@ -141,11 +180,63 @@ theorem frame_tempLoadPkg (i : Nat) (d : Disk) (w : World) (n : Name)
     split
     · exact Frame.refl i w
     · rename_i hbase
-      have hf : d.find n = none := by
+      have hf : canAutoload d w n = false := by
         simp [leaky, hloc, hbase] at hl
         exact hl
-      rw [loadClass_find_none d w .base n hf]
+      obtain ⟨h1, h2⟩ := canAutoload_false hf
+      rw [loadClass_noop d w .base n h1 h2]
       exact Frame.refl i w
+
+/-! #### script routes on TempVM `i` -/
+
+theorem frame_setBase_shared (i : Nat) (w : World) (b : Base) (hc : b.classes = w.base.classes)
+    (hi : b.ifaces = w.base.ifaces) (hf : b.funcs = w.base.funcs) : Frame i w (w.setBase b) :=
+  ⟨hc, hi, hf, fun _ _ => rfl⟩
+
+theorem frame_scriptEval (i : Nat) (d : Disk) (w : World) (u : File) (id : Nat) :
+    Frame i w (scriptEval d w (.temp i) u id) :=
+  (frame_bindParser i w).trans (frame_throwControl i _)
+
+theorem frame_scriptInclude (i : Nat) (d : Disk) (w : World) (f : File) (req : Bool) :
+    Frame i w (scriptInclude d w (.temp i) f req) := by
+  unfold scriptInclude
+  have h := (frame_bindParser i w).trans (frame_includeFile i d (bindParser w (.temp i)) f)
+  dsimp only
+  split
+  · exact h
+  · exact h.trans (frame_throwControl i _)
+  · split
+    · exact h.trans (frame_throwControl i _)
+    · exact h
+
+theorem frame_scriptRunFn (i : Nat) (w : World) (n : Name) (id : Nat) :
+    Frame i w (scriptRunFn w (.temp i) n id) := by
+  unfold scriptRunFn
+  simp only [addDef_temp_ok, if_true]
+  exact (frame_bindParser i w).trans (frame_addDef i _ .fn n _)
+
+theorem frame_scriptAutoReg (i : Nat) (w : World) (cb : Nat) :
+    Frame i w (scriptAutoReg w (.temp i) cb) :=
+  (frame_bindParser i w).trans (frame_setBase_shared i _ _ rfl rfl rfl)
+
+theorem frame_scriptUse (i : Nat) (d : Disk) (w : World) (n : Name) (pt : Bool) :
+    Frame i w (scriptUse d w (.temp i) n pt).1 := by
+  unfold scriptUse getOrLoadClassOn
+  have h := (frame_bindParser i w).trans (frame_tempGetOrLoadClass i d (bindParser w (.temp i)) n)
+  dsimp only
+  split
+  · exact h
+  · split
+    · exact h
+    · exact h.trans (frame_throwControl i _)
+
+theorem frame_scriptDefine (i : Nat) (w : World) (c : Name) :
+    Frame i w (scriptDefine w (.temp i) c) := by
+  unfold scriptDefine
+  dsimp only
+  split
+  · exact (frame_bindParser i w).trans (frame_throwControl i _)
+  · exact (frame_bindParser i w).trans (frame_setBase_shared i _ _ rfl rfl rfl)
 
 /-- Every non-leaky operation invoked on TempVM `i` stays inside TempVM `i`'s frame. -/
 theorem frame_step (d : Disk) (w : World) (op : Op) (i : Nat) (hv : op.via = .temp i)
@@ -172,6 +263,30 @@ theorem frame_step (d : Disk) (w : World) (op : Op) (i : Nat) (hv : op.via = .te
   | discard j =>
     simp only [Op.via, VMId.temp.injEq] at hv; subst hv
     exact frame_setTemp j w _
+  | evalCode v u id =>
+    simp only [Op.via] at hv; subst hv
+    exact frame_scriptEval i d w u id
+  | incl v f req =>
+    simp only [Op.via] at hv; subst hv
+    exact frame_scriptInclude i d w f req
+  | runFn v n id =>
+    simp only [Op.via] at hv; subst hv
+    exact frame_scriptRunFn i w n id
+  | autoReg v cb =>
+    simp only [Op.via] at hv; subst hv
+    exact frame_scriptAutoReg i w cb
+  | useClass v n pt =>
+    simp only [Op.via] at hv; subst hv
+    exact frame_scriptUse i d w n pt
+  | define v c =>
+    simp only [Op.via] at hv; subst hv
+    exact frame_scriptDefine i w c
+  | alias v a b =>
+    simp only [Op.via] at hv; subst hv
+    exact frame_bindParser i w
+  | inert v =>
+    simp only [Op.via] at hv; subst hv
+    exact frame_bindParser i w
 
 /-- the base's resolve answers depend on the three definition maps only -/
 theorem base_getClass_congr (fold : Name → Name) {b b' : Base} (h : b'.classes = b.classes) (n : Name) :
@@ -252,11 +367,42 @@ theorem temps_parseFile_base (d : Disk) (w : World) (f : File) :
     (parseFile d w .base f).1.temps = w.temps := by
   unfold parseFile; rw [temps_parseAndRun_base]; rfl
 
+theorem temps_includeFile_base (d : Disk) (w : World) (f : File) :
+    (includeFile d w .base f).1.temps = w.temps := by
+  unfold includeFile
+  split
+  · rfl
+  · split
+    · rfl
+    · exact temps_loadAndRun_base d w f
+
+theorem temps_runCallback_base (d : Disk) (w : World) (cb : Nat) (n : Name) :
+    (runCallback d w .base cb n).1.temps = w.temps := by
+  unfold runCallback
+  split
+  · exact temps_includeFile_base d w _
+  · rfl
+
+theorem temps_callAutoLoad_base (d : Disk) (n : Name) (cbs : List Nat) :
+    ∀ w, (callAutoLoad d .base n w cbs).1.temps = w.temps := by
+  induction cbs with
+  | nil => intro w; rfl
+  | cons cb cbs ih =>
+    intro w
+    unfold callAutoLoad
+    have h1 := temps_runCallback_base d w cb n
+    dsimp only
+    split
+    · exact h1
+    · split
+      · exact h1
+      · rw [ih]; exact h1
+
 theorem temps_loadClass_base (d : Disk) (w : World) (n : Name) :
     (loadClass d w .base n).1.temps = w.temps := by
   unfold loadClass
   split
-  · rfl
+  · exact temps_callAutoLoad_base d n _ w
   · split
     · rfl
     · dsimp only
@@ -296,6 +442,51 @@ theorem temps_step_base (d : Disk) (w : World) (op : Op) (hv : op.via = .base) :
   | getOrLoadInterface v n => simp only [Op.via] at hv; subst hv; exact temps_baseGetOrLoadInterface d w n
   | loadPkg v n => simp only [Op.via] at hv; subst hv; exact temps_baseLoadPkg d w n
   | discard j => simp [Op.via] at hv
+  | evalCode v u id =>
+    simp only [Op.via] at hv; subst hv
+    show (scriptEval d w .base u id).temps = w.temps
+    unfold scriptEval
+    dsimp only [bindParser]
+    split
+    · rfl
+    · split
+      · simp only [temps_runPhase_base, temps_parsePhase_base]
+      · show (throwControl _).temps = _
+        simp only [throwControl, temps_setBase, temps_parsePhase_base]
+  | incl v f req =>
+    simp only [Op.via] at hv; subst hv
+    show (scriptInclude d w .base f req).temps = w.temps
+    unfold scriptInclude
+    have h := temps_includeFile_base d w f
+    dsimp only [bindParser]
+    split
+    · exact h
+    · exact h
+    · split <;> exact h
+  | runFn v n id =>
+    simp only [Op.via] at hv; subst hv
+    show (scriptRunFn w .base n id).temps = w.temps
+    unfold scriptRunFn
+    dsimp only [bindParser]
+    split <;> rfl
+  | autoReg v cb => simp only [Op.via] at hv; subst hv; rfl
+  | useClass v n pt =>
+    simp only [Op.via] at hv; subst hv
+    show (scriptUse d w .base n pt).1.temps = w.temps
+    unfold scriptUse getOrLoadClassOn
+    have h := temps_baseGetOrLoadClass d w n
+    dsimp only [bindParser]
+    split
+    · exact h
+    · split <;> exact h
+  | define v c =>
+    simp only [Op.via] at hv; subst hv
+    show (scriptDefine w .base c).temps = w.temps
+    unfold scriptDefine
+    dsimp only [bindParser]
+    split <;> rfl
+  | alias v a b => simp only [Op.via] at hv; subst hv; rfl
+  | inert v => simp only [Op.via] at hv; subst hv; rfl
 
 /-! ### world-level facts about the lookup order -/
 
@@ -345,5 +536,68 @@ theorem discard_forgets_world (d : Disk) (w : World) (i : Nat) :
   · simp only [resolve, getInterface, step, World.setTemp]
     cases w.base.getInterface n <;> simp
   · simp [resolve, getFunc, step, World.setTemp]
+
+/-! ### routes that define nothing -/
+
+/-- binding the parser (what running any script does first) changes no resolve table -/
+theorem resolve_bindParser (d : Disk) (w : World) (v v' : VMId) :
+    resolve d (bindParser w v') v = resolve d w v := by
+  cases v' with
+  | base => rfl
+  | temp i =>
+    funext k n
+    cases v with
+    | base => cases k <;> rfl
+    | temp j =>
+      by_cases h : j = i
+      · subst h; cases k <;> simp [resolve, getClass, getInterface, getFunc, bindParser, World.setTemp]
+      · cases k <;> simp [resolve, getClass, getInterface, getFunc, bindParser, World.setTemp, h]
+
+/-- changing only the shared-by-design part of the base changes no resolve table -/
+theorem resolve_setBase_shared (d : Disk) (w : World) (b : Base) (v : VMId)
+    (hc : b.classes = w.base.classes) (hi : b.ifaces = w.base.ifaces) (hf : b.funcs = w.base.funcs) :
+    resolve d (w.setBase b) v = resolve d w v := by
+  funext k n
+  cases v <;> cases k <;>
+    simp [resolve, getClass, getInterface, getFunc, World.setBase, Base.getClass, Base.getInterface,
+      Base.getFunc, hc, hi, hf]
+
+theorem resolve_throwControl (d : Disk) (w : World) (v : VMId) :
+    resolve d (throwControl w) v = resolve d w v :=
+  resolve_setBase_shared d w _ v rfl rfl rfl
+
+/-- `eval()` on a TempVM is refused: nobody's table changes, not even the TempVM's own -/
+theorem resolve_scriptEval_temp (d : Disk) (w : World) (i : Nat) (u : File) (id : Nat) (v : VMId) :
+    resolve d (scriptEval d w (.temp i) u id) v = resolve d w v := by
+  show resolve d (throwControl (bindParser w (.temp i))) v = _
+  rw [resolve_throwControl, resolve_bindParser]
+
+/-- the routes that define nothing: registering an autoload callback, `define`,
+`class_alias`, anonymous classes / closures -/
+def Op.inertRoute : Op → Bool
+  | .autoReg _ _ | .define _ _ | .alias _ _ _ | .inert _ => true
+  | _ => false
+
+theorem resolve_inert (d : Disk) (w : World) (op : Op) (h : Op.inertRoute op = true) (v : VMId) :
+    resolve d (step d w op).1 v = resolve d w v := by
+  cases op <;> simp only [Op.inertRoute] at h <;> try (exact absurd h (by decide))
+  · -- autoReg
+    show resolve d (scriptAutoReg w _ _) v = _
+    unfold scriptAutoReg
+    dsimp only
+    refine Eq.trans (resolve_setBase_shared d _ _ v ?_ ?_ ?_) (resolve_bindParser d w v _) <;> rfl
+  · -- define
+    show resolve d (scriptDefine w _ _) v = _
+    unfold scriptDefine
+    dsimp only
+    split
+    · rw [resolve_throwControl, resolve_bindParser]
+    · refine Eq.trans (resolve_setBase_shared d _ _ v ?_ ?_ ?_) (resolve_bindParser d w v _) <;> rfl
+  · -- alias
+    show resolve d (bindParser w _) v = _
+    rw [resolve_bindParser]
+  · -- inert
+    show resolve d (bindParser w _) v = _
+    rw [resolve_bindParser]
 
 end Proofs.Temp
